@@ -13,7 +13,7 @@ RULE = ('one case = one (operator form, input tables, strategy) call iterated tw
         'by the operator\'s key with the reference sort; or one (operator form, tables, cache, buffersize, history) '
         'evaluation with instrumented sources.  Inputs realise ties on the key with distinguishable rows, None keys, a '
         'short row; non-trivial = at least one input with >= 2 rows')
-BOUND = {'quick': '44 operator forms; single-table inputs: all tables <= 2 rows over 5 row contents + 14 seeded 3-row tables; '
+BOUND = {'quick': '43 operator forms; single-table inputs: all tables <= 2 rows over 5 row contents + 14 seeded 3-row tables; '
                   'two-table inputs: all pairs with <= 1 row each + 24 seeded pairs with <= 2 rows; tempdir set on every third cell of '
                   'the buffersize x cache grid; histories: <= 3 passes, edits {none, append, delete} on either source, '
                   'buffersize {None, 1}, initial tables: one with ties, one header-only',
